@@ -228,7 +228,7 @@ func refQuery(model map[string]interface{}, q idxQuery) []string {
 // idxTasksEnqueued counts successful mutations = index tasks enqueued (process wide).
 var idxTasksEnqueued int64
 
-var idxKeys = []string{"a", "ab", "abc", "b", "ba", emptyKeyMarker, "a:b", "z", "aa", "Ab", "a b", "ab~", "abcd", "k\x01", "é", emptyKeyMarker}
+var idxKeys = []string{"a", "ab", "abc", "b", "ba", emptyKeyMarker, "a:b", "z", "aa", "Ab", "a b", "ab~", "abcd", "k\x01", "é", emptyKeyMarker, "a<FF>", "a<FF><FF>", "<FF>", "ab<FF>c", "a<FF>b"}
 
 type idxMut struct {
 	Op  string `json:"op"`
@@ -371,7 +371,7 @@ func (e *idxEnv) mutateTxn(r *rand.Rand, ids []string, n int) (muts []idxMut, be
 
 // idxBattery returns the query battery for the current model.
 func idxBattery(r *rand.Rand, n int) []idxQuery {
-	prefixes := []string{"", "a", "ab", "abc", "abcd", "abcde", "b", "q", "a:", "a\x00", "ab\x00id", ":", "A", "k\x01", "é", "a "}
+	prefixes := []string{"", "a", "ab", "abc", "abcd", "abcde", "b", "q", "a:", "a\x00", "ab\x00id", ":", "A", "k\x01", "é", "a ", "a\xff", "\xff", "a\xff\xff", "ab\xff"}
 	var qs []idxQuery
 	for _, idx := range []string{"k", "x2"} {
 		for _, p := range prefixes {
@@ -507,6 +507,33 @@ func c13History(c *core.Ctx, env *idxEnv, r *rand.Rand, h int) {
 		c.Obs("burst_mutations", int64(len(ms)))
 		env.qs.Flush()
 		env.checkQueries(c, "C13", hist, idxBattery(r, len(env.model)), fmt.Sprintf("h%d/burst", h))
+	}
+	if h == 2 {
+		// a large store: windows longer than any internal buffer (several hundred hits)
+		for k := 0; k < 420; k++ {
+			id := fmt.Sprintf("big%03d", k)
+			key := []string{"a", "ab", "abc", "b", "a<FF>", emptyKeyMarker, "ab~"}[k%7]
+			v := mkValue2(env.typed, fmt.Sprintf("big.u%d", k), key, []string{"a", ""}[k%2])
+			wt := env.st.Write(id)
+			if err := wt.Create(v); err == nil {
+				env.model[id] = v
+				atomic.AddInt64(&idxTasksEnqueued, 1)
+				n++
+			}
+			wt.Close()
+		}
+		env.qs.Flush()
+		var qs []idxQuery
+		for _, idx := range []string{"k", "x2"} {
+			for _, rev := range []bool{false, true} {
+				qs = append(qs, idxQuery{Index: idx, Prefix: "", Limit: -1, Reverse: rev}, idxQuery{Index: idx, Prefix: "a", Limit: -1, Reverse: rev},
+					idxQuery{Index: idx, Prefix: "", Limit: 300, Reverse: rev}, idxQuery{Index: idx, Prefix: "", Offset: 100, Limit: 290, Reverse: rev},
+					idxQuery{Index: idx, Prefix: "a", Offset: 257, Limit: -1, Reverse: rev}, idxQuery{Index: idx, Prefix: "", Filter: "hasa", Offset: 3, Limit: 260, Reverse: rev},
+					idxQuery{Index: idx, Prefix: "", Limit: 256, Reverse: rev}, idxQuery{Index: idx, Prefix: "", Limit: 257, Reverse: rev}, idxQuery{Index: idx, Prefix: "", Limit: 255, Reverse: rev})
+			}
+		}
+		c.Obs("large_store_queries", int64(len(qs)))
+		env.checkQueries(c, "C13", hist, qs, fmt.Sprintf("h%d/large", h))
 	}
 	c.Obs("mutations", int64(n))
 	if h == 0 {
